@@ -27,6 +27,11 @@ LBR == 123  RBR == 125  LSQ == 91  RSQ == 93  DASH == 45
 
 RECURSIVE Spaces(_)
 Spaces(n) == IF n <= 0 THEN <<>> ELSE <<SP>> \o Spaces(n - 1)
+TAB == 9
+RECURSIVE Tabs(_)
+Tabs(n) == IF n <= 0 THEN <<>> ELSE <<TAB>> \o Tabs(n - 1)
+\* indentation of pretty JSON: lay.ind spaces per level, or (ind = 0) one tab per level as `jq --tab` writes
+Indent(lay, depth) == IF lay.ind = 0 THEN Tabs(depth) ELSE Spaces(lay.ind * depth)
 
 Emit(st, cps) == [st EXCEPT !.txt = @ \o cps]
 Mark(st, path) == [st EXCEPT !.pos = Append(@, [p |-> path, off |-> Len(st.txt)])]
@@ -76,8 +81,8 @@ Flow(v, path, st, fmt, lay, depth) ==
   ELSE
     LET open == IF v.t = "map" THEN <<LBR>> ELSE <<LSQ>>
         close == IF v.t = "map" THEN <<RBR>> ELSE <<RSQ>>
-        nlIn == IF fmt = "pretty" THEN <<NL>> \o Spaces(lay.ind * (depth + 1)) ELSE <<>>
-        nlOut == IF fmt = "pretty" THEN <<NL>> \o Spaces(lay.ind * depth) ELSE <<>>
+        nlIn == IF fmt = "pretty" THEN <<NL>> \o Indent(lay, depth + 1) ELSE <<>>
+        nlOut == IF fmt = "pretty" THEN <<NL>> \o Indent(lay, depth) ELSE <<>>
         s1 == Emit(st, open \o nlIn)
         s2 == FlowItems(v, path, 1, s1, fmt, lay, depth)
     IN Emit(s2, nlOut \o close)
@@ -86,7 +91,7 @@ FlowItems(v, path, i, st, fmt, lay, depth) ==
   IF i > Len(v.v) THEN st
   ELSE
     LET sep == IF i = 1 THEN <<>>
-               ELSE IF fmt = "pretty" THEN <<COMMA, NL>> \o Spaces(lay.ind * (depth + 1))
+               ELSE IF fmt = "pretty" THEN <<COMMA, NL>> \o Indent(lay, depth + 1)
                ELSE IF fmt = "flow" THEN <<COMMA, SP>> ELSE <<COMMA>>
         s1 == Emit(st, sep)
         s2 == IF v.t = "map"
